@@ -80,8 +80,12 @@ type Case struct {
 	Unregistered   bool     `json:"unregistered"`
 	FrontReturned  bool     `json:"servefront_returned"`
 	BackReturned   bool     `json:"serveback_returned"`
-	AcceptReturned bool     `json:"accept_returned"`   // the lost endpoint's Accept returned (endpoint side)
-	Skipped        bool     `json:"skipped,omitempty"` // not run: the stream was stopped after repeated stranding
+	EP             []EPObs  `json:"ep,omitempty"`              // stream "ep": the endpoint-side threads
+	CloseMs        int      `json:"close_ms,omitempty"`        // how long Endpoint.Close took
+	SendAcceptLeft int      `json:"sendaccept_left,omitempty"` // goroutines still in sendAccept 3 s after Close returned
+	MidDial        string   `json:"mid_dial,omitempty"`        // side-kick-middial: how the dial in flight ended
+	AcceptReturned bool     `json:"accept_returned"`           // the lost endpoint's Accept returned (endpoint side)
+	Skipped        bool     `json:"skipped,omitempty"`         // not run: the stream was stopped after repeated stranding
 	Queued         int      `json:"queued_at_release,omitempty"`
 	Leak           []string `json:"leak,omitempty"`
 	Hang           string   `json:"hang,omitempty"`
@@ -120,6 +124,19 @@ func genTL(seed uint64, i int) Case {
 		c.Steps = []Step{newc("hello", "never"), {Op: "reply", K: 1, Good: true}, {Op: "stall"},
 			{Op: "burst", K: 10, N: 200, Kind: "write"}, {Op: "sever"}}
 		return c
+	case 6: // side dial: the call succeeded, the side connection never comes, the control connection is lost
+		c.Steps = []Step{newc("sidedial", "never"), {Op: "reply", K: 1, Good: true}, {Op: "sever"}}
+		return c
+	case 7: // side dial completed by the delivery; another one in flight when the connection is lost
+		c.Steps = []Step{newc("sidedial", "never"), {Op: "reply", K: 1, Good: true}, {Op: "deliver", K: 1},
+			newc("sidedial", "open"), {Op: "sever"}, newc("sidedial", "never")}
+		return c
+	case 8: // delivery before the reply; a mistyped reply; a cancelled dial
+		c.Steps = []Step{newc("sidedial", "never"), {Op: "deliver", K: 1}, {Op: "reply", K: 1, Good: true},
+			newc("sidedial", "never"), {Op: "reply", K: 2, Good: false},
+			newc("sidedial", "open"), {Op: "reply", K: 3, Good: true}, {Op: "cancel", K: 3},
+			newc("closeall", "never")}
+		return c
 	}
 	if i%97 == 50 { // a few more of both, with varying sizes
 		n := 130 + r.Intn(60)
@@ -133,6 +150,9 @@ func genTL(seed uint64, i int) Case {
 		return c
 	}
 	kinds := []string{"hello", "hello", "read", "closeall"}
+	if r.Intn(4) == 0 { // a scenario in a side mode
+		kinds = []string{"hello", "sidedial", "sidedial", "closeall", "read"}
+	}
 	ctxs := []string{"never", "never", "open"}
 	n := 2 + r.Intn(9)
 	dead, shut := false, false
@@ -143,7 +163,7 @@ func genTL(seed uint64, i int) Case {
 		case x < 5:
 			kind := kinds[r.Intn(len(kinds))]
 			ctx := ctxs[r.Intn(len(ctxs))]
-			if kind != "hello" {
+			if kind != "hello" && kind != "sidedial" {
 				ctx = "never"
 			}
 			st := newc(kind, ctx)
@@ -158,6 +178,9 @@ func genTL(seed uint64, i int) Case {
 			if len(pending) > 0 && !dead {
 				j := r.Intn(len(pending))
 				c.Steps = append(c.Steps, Step{Op: "reply", K: pending[j], Good: r.Intn(4) > 0})
+				if r.Intn(3) > 0 { // (ignored unless K is a side dial that was sent)
+					c.Steps = append(c.Steps, Step{Op: "deliver", K: pending[j]})
+				}
 				pending = append(pending[:j], pending[j+1:]...)
 			} else if k > 0 {
 				c.Steps = append(c.Steps, Step{Op: "reply", K: 1 + r.Intn(k), Good: true})
@@ -197,7 +220,9 @@ func genTL(seed uint64, i int) Case {
 var e2eFaults = []string{"sever-endpoint", "sever-server", "close-endpoint", "kick", "proto-error"}
 
 var e2eFirst = []string{"sever-endpoint", "sever-server", "close-endpoint", "kick", "kick-blackholed",
-	"proto-error", "sever-endpoint", "proto-error"}
+	"proto-error", "side-loss-endpoint", "side-kick-middial"}
+
+var e2eSide = []string{"side-loss-endpoint", "side-loss-server", "side-kick-middial"}
 
 func genE2E(seed uint64, i, j int) Case {
 	r := hx.NewRng(seed*7919 + uint64(j)*104723 + 11)
@@ -208,6 +233,10 @@ func genE2E(seed uint64, i, j int) Case {
 		c.Conns = r.Intn(9)
 		c.Fault = e2eFaults[r.Intn(len(e2eFaults))]
 		c.Hold = r.Intn(4) > 0
+		if j%5 == 3 {
+			c.Fault = e2eSide[r.Intn(len(e2eSide))]
+			c.Conns = r.Intn(5)
+		}
 		if j%37 == 20 { // (costs the 3 s shutdown time-out of the kick even on a sound tree)
 			c.Fault = "kick-blackholed"
 			c.Conns = 1 + r.Intn(3)
@@ -229,6 +258,8 @@ type tcaller struct {
 	seen     bool
 	id       uint64
 	returned bool
+	sess     uint64 // side dial: the session key read off the request
+	key      uint64
 }
 
 var readerFrames = []string{"shanhu.io/g/sniproxy.(*transport).serveRead",
@@ -256,7 +287,14 @@ func runTL(c *Case, tap *rpcx.LogTap) {
 		return
 	}
 	defer pair.Close()
-	cl := sniproxy.VerifNewClient(pair.A, nil)
+	opt := &sniproxy.Options{}
+	for _, st := range c.Steps {
+		if st.Kind == "sidedial" { // side modes: Dial asks for a side connection
+			opt.Siding = true
+			opt.DialWithAddr = c.I%2 == 0
+		}
+	}
+	cl := sniproxy.VerifNewClient(pair.A, opt)
 	reqs := make(chan []byte, 256)
 	var stalled atomic.Bool
 	go func() {
@@ -310,6 +348,16 @@ func runTL(c *Case, tap *rpcx.LogTap) {
 					return id, k
 				}
 			}
+		case 8, 9: // dialSide(2)Request: session, key, token(, tcpAddr)
+			if len(body) >= 16 {
+				for k, tc := range callers {
+					if tc.step.Kind == "sidedial" && !tc.seen {
+						tc.sess = binary.LittleEndian.Uint64(body)
+						tc.key = binary.LittleEndian.Uint64(body[8:])
+						return id, k
+					}
+				}
+			}
 		}
 		return id, -1
 	}
@@ -342,6 +390,14 @@ func runTL(c *Case, tap *rpcx.LogTap) {
 				tc.front.Store(true)
 			case "shutdown":
 				_, err = cl.Call(ctx, 0, "", nil, "", 0)
+			case "sidedial":
+				// endpointClient.Dial in a side mode: the call, then the wait
+				// for the side connection in the mailbox
+				var conn net.Conn
+				conn, err = cl.Dial(ctx, "10.1.2.3:4567")
+				if conn != nil {
+					conn.Close()
+				}
 			}
 			tc.res = sniproxy.VerifCallErrKind(err)
 		}(st)
@@ -358,6 +414,11 @@ func runTL(c *Case, tap *rpcx.LogTap) {
 		if st.Op == "reply" {
 			if tc := callers[st.K]; tc == nil || !tc.seen || severed {
 				continue // nothing to answer, or no connection to send it on
+			}
+		}
+		if st.Op == "deliver" {
+			if tc := callers[st.K]; tc == nil || !tc.seen || tc.step.Kind != "sidedial" {
+				continue
 			}
 		}
 		executed = append(executed, st)
@@ -441,6 +502,12 @@ func runTL(c *Case, tap *rpcx.LogTap) {
 				fs = []rpcx.Field{{K: "err", Nil: true}}
 			case "shutdown":
 				typ, resp = 0, ""
+			case "sidedial":
+				typ, resp = 8, "dialResponse"
+				if opt.DialWithAddr {
+					typ = 9
+				}
+				fs = []rpcx.Field{{K: "u64", U: "7"}, {K: "err", Nil: true}}
 			}
 			if !st.Good {
 				typ, resp, fs = 5, "", nil
@@ -456,6 +523,17 @@ func runTL(c *Case, tap *rpcx.LogTap) {
 			if tap.WaitAny("receive text: "+marker, cl.ServeDone(), waitBound) == "timeout" {
 				c.Hang = "reply: reader did not get to the marker"
 				ok = false
+			}
+		case "deliver":
+			// the side websocket of dial K arrives (Server.serveBackSide)
+			if tc := callers[st.K]; tc != nil && tc.seen {
+				a, b := net.Pipe()
+				go io.Copy(io.Discard, b)
+				cl.DeliverSide(tc.sess, tc.key, a)
+				select {
+				case <-tc.done:
+				case <-time.After(50 * time.Millisecond):
+				}
 			}
 		case "sever":
 			if !severed {
@@ -521,6 +599,222 @@ func runTL(c *Case, tap *rpcx.LogTap) {
 // ---- end-to-end scenarios ----------------------------------------------------------
 
 var tlsCfg *httpstest.TLSConfigs
+
+// EPObs is one endpoint-side (or, for "dial", server-side) goroutine.
+type EPObs struct {
+	Kind     string `json:"kind"` // accept | close | dial
+	T        int    `json:"t"`
+	Returned bool   `json:"returned"`
+	Res      string `json:"res,omitempty"`
+	AfterMs  int    `json:"after_ms"` // when it returned, relative to the fault / to Close returning
+}
+
+var epScenarios = []string{"accept-drop-sever", "accept-drop-kick", "accept-drop-close", "close-vs-accept",
+	"sendaccept-close", "sendaccept-drain", "accept-drop-sever", "close-vs-accept"}
+
+// runEP drives Endpoint.Accept / Close / sendAccept explicitly.
+func runEP(c *Case) {
+	leakBase := rpcx.Goroutines(e2eFrames, []string{"Verif"})
+	var mu sync.Mutex
+	var clients []*sniproxy.VerifClient
+	srv := sniproxy.NewServer(&sniproxy.ServerConfig{})
+	srv.VerifSetEndpointCallback(func(name string, cl *sniproxy.VerifClient) {
+		mu.Lock()
+		clients = append(clients, cl)
+		mu.Unlock()
+	})
+	var backs sync.WaitGroup
+	ts := httptest.NewServer(aries.Func(func(ac *aries.C) error {
+		backs.Add(1)
+		defer backs.Done()
+		ac.User = ac.Path
+		return srv.ServeBack(ac)
+	}))
+	defer ts.Close()
+	dialEP := func() (*sniproxy.Endpoint, error) {
+		return sniproxy.Dial(context.Background(), &sniproxy.StaticRouter{Host: ts.Listener.Addr().String()},
+			&sniproxy.DialOption{Path: "/site", WithoutTLS: true})
+	}
+	ep, err := dialEP()
+	if err != nil {
+		c.Crash = "dial endpoint: " + err.Error()
+		return
+	}
+	for t0 := time.Now(); srv.VerifLookup("/site") == nil && time.Since(t0) < waitBound; {
+		time.Sleep(100 * time.Microsecond)
+	}
+	mu.Lock()
+	var first *sniproxy.VerifClient
+	if len(clients) > 0 {
+		first = clients[0]
+	}
+	mu.Unlock()
+	if first == nil {
+		c.Hang = "endpoint did not register"
+		return
+	}
+
+	type thr struct {
+		obs  EPObs
+		done chan struct{}
+		at   time.Time
+		conn net.Conn
+	}
+	var threads []*thr
+	spawn := func(kind string, f func() (string, net.Conn)) *thr {
+		th := &thr{obs: EPObs{Kind: kind, T: len(threads)}, done: make(chan struct{})}
+		threads = append(threads, th)
+		go func() {
+			res, conn := f()
+			th.obs.Res, th.conn, th.at = res, conn, time.Now()
+			close(th.done)
+		}()
+		return th
+	}
+	accept := func() *thr {
+		return spawn("accept", func() (string, net.Conn) {
+			conn, err := ep.Accept()
+			if err != nil {
+				return "err", nil
+			}
+			return "conn", conn
+		})
+	}
+	dial := func() *thr {
+		return spawn("dial", func() (string, net.Conn) {
+			ctx, cancel := context.WithTimeout(context.Background(), 3*waitBound)
+			defer cancel()
+			conn, err := first.Dial(ctx, "")
+			if err != nil {
+				return "err", nil
+			}
+			return "conn", conn
+		})
+	}
+	closer := func() *thr {
+		return spawn("close", func() (string, net.Conn) {
+			t0 := time.Now()
+			err := ep.Close()
+			c.CloseMs = int(time.Since(t0) / time.Millisecond)
+			if err != nil {
+				return "err:" + err.Error(), nil
+			}
+			return "ok", nil
+		})
+	}
+	settle := func() { time.Sleep(20 * time.Millisecond) } // let the goroutines reach their selects
+
+	k := c.Conns
+	if k < 1 {
+		k = 1
+	}
+	ref := time.Now() // observations are timed from the fault
+	var ep2 *sniproxy.Endpoint
+	switch c.Fault {
+	case "accept-drop-sever", "accept-drop-kick", "accept-drop-close":
+		for j := 0; j < k; j++ {
+			accept()
+		}
+		settle()
+		ref = time.Now()
+		switch c.Fault {
+		case "accept-drop-sever":
+			first.Sever()
+		case "accept-drop-kick":
+			ep2, _ = dialEP()
+		case "accept-drop-close":
+			go first.Close()
+		}
+	case "close-vs-accept":
+		for j := 0; j < k; j++ {
+			accept()
+		}
+		settle()
+		ref = time.Now()
+		closer()
+		closer()
+		accept() // an Accept issued while Close is under way
+	case "sendaccept-close", "sendaccept-drain":
+		// nobody accepts: 10 dials fill p.incoming, two more wait in sendAccept
+		var dials []*thr
+		for j := 0; j < 12; j++ {
+			dials = append(dials, dial())
+		}
+		deadline := time.Now().Add(2 * time.Second)
+		for time.Now().Before(deadline) {
+			n := 0
+			for _, d := range dials {
+				select {
+				case <-d.done:
+					n++
+				default:
+				}
+			}
+			if n >= 10 {
+				break
+			}
+			time.Sleep(time.Millisecond)
+		}
+		settle()
+		if c.Fault == "sendaccept-close" {
+			cl := closer()
+			select {
+			case <-cl.done:
+			case <-time.After(waitBound):
+			}
+			ref = time.Now() // the waiting dials are timed from the return of Close
+			// p.closed must release the waiting sendAccept goroutines at once
+			left := waitCount([]string{"shanhu.io/g/sniproxy.(*Endpoint).sendAccept"}, nil, 0, 3*time.Second)
+			c.SendAcceptLeft = len(left)
+		} else {
+			ref = time.Now()
+			for j := 0; j < 12; j++ {
+				accept()
+			}
+		}
+	}
+	end := time.Now().Add(waitBound)
+	for _, th := range threads {
+		select {
+		case <-th.done:
+			th.obs.Returned = true
+			if th.at.After(ref) {
+				th.obs.AfterMs = int(th.at.Sub(ref) / time.Millisecond)
+			}
+		case <-time.After(time.Until(end)):
+		}
+		c.EP = append(c.EP, th.obs)
+	}
+	// teardown
+	for _, th := range threads {
+		if th.conn != nil {
+			go th.conn.Close()
+		}
+	}
+	go ep.Close()
+	if ep2 != nil {
+		go ep2.Close()
+	}
+	done := make(chan struct{})
+	go func() { backs.Wait(); close(done) }()
+	select {
+	case <-done:
+		c.BackReturned = true
+	case <-time.After(waitBound):
+	}
+	left := waitCount(e2eFrames, []string{"Verif"}, len(leakBase), waitBound)
+	seen := map[string]int{}
+	for _, g := range leakBase {
+		seen[g]++
+	}
+	for _, g := range left {
+		if seen[g] > 0 {
+			seen[g]--
+		} else {
+			c.Leak = append(c.Leak, g)
+		}
+	}
+}
 
 // relay is a TCP relay that can be frozen: it then drops every byte in both
 // directions but keeps both sockets open (a black-holed network path: no
@@ -589,6 +883,7 @@ func (r *relay) close() {
 var e2eFrames = []string{"shanhu.io/g/sniproxy", "shanhu.io/g/netutil"}
 
 func runE2E(c *Case) {
+	side := strings.HasPrefix(c.Fault, "side-")
 	leakBase := rpcx.Goroutines(e2eFrames, []string{"Verif"})
 	var mu sync.Mutex
 	var clients []*sniproxy.VerifClient
@@ -608,14 +903,23 @@ func runE2E(c *Case) {
 		clients = append(clients, cl)
 		mu.Unlock()
 	})
+	var sideArmed atomic.Bool
+	atSide := make(chan struct{}, 4)
+	releaseSide := make(chan struct{})
 	sniproxy.VerifHook = func(point, name string, cl *sniproxy.VerifClient) {
+		if point == "side" && sideArmed.CompareAndSwap(true, false) {
+			// hold the side websocket's handler before it looks the name up
+			atSide <- struct{}{}
+			<-releaseSide
+			return
+		}
 		if point != "served" {
 			return
 		}
 		mu.Lock()
 		first := len(clients) > 0 && clients[0].Same(cl)
 		mu.Unlock()
-		if first && c.Hold && c.Fault != "kick-blackholed" && c.Fault != "proto-error" &&
+		if first && c.Hold && c.Fault != "kick-blackholed" && c.Fault != "proto-error" && !side &&
 			held.CompareAndSwap(false, true) {
 			atServed <- struct{}{}
 			<-release
@@ -647,8 +951,11 @@ func runE2E(c *Case) {
 	}()
 
 	dialVia := func(host string) (*sniproxy.Endpoint, error) {
-		return sniproxy.Dial(context.Background(), &sniproxy.StaticRouter{Host: host},
-			&sniproxy.DialOption{Path: "/site", WithoutTLS: true})
+		opt := &sniproxy.DialOption{Path: "/site", WithoutTLS: true}
+		if side { // side mode: every front connection gets its own websocket
+			opt.TunnelOptions = &sniproxy.Options{Siding: true, DialWithAddr: c.I%2 == 0}
+		}
+		return sniproxy.Dial(context.Background(), &sniproxy.StaticRouter{Host: host}, opt)
 	}
 	dialEP := func() (*sniproxy.Endpoint, error) { return dialVia(ts.Listener.Addr().String()) }
 	serveEcho := func(ep *sniproxy.Endpoint) {
@@ -745,6 +1052,50 @@ func runE2E(c *Case) {
 	var ep2 *sniproxy.Endpoint
 	if c.Hang == "" && first != nil {
 		switch c.Fault {
+		case "side-kick-middial":
+			// a front connection starts dialling; its side websocket is held in
+			// the server before the name is looked up; the endpoint is kicked
+			// meanwhile
+			sideArmed.Store(true)
+			midDone := make(chan string, 1)
+			go func() {
+				cfg := tlsCfg.Client.Clone()
+				cfg.ServerName = "site.com"
+				d := &net.Dialer{Timeout: waitBound}
+				fc, err := tls.DialWithDialer(d, "tcp", lis.Addr().String(), cfg)
+				if err != nil {
+					midDone <- "failed"
+					return
+				}
+				fc.Close()
+				midDone <- "connected"
+			}()
+			select {
+			case <-atSide:
+			case <-time.After(waitBound):
+				c.Hang = "side websocket did not reach the server"
+			}
+			ep2, err = dialEP()
+			if err != nil {
+				c.Hang = "kick dial: " + err.Error()
+			} else {
+				go serveEcho(ep2)
+				for t0 := time.Now(); time.Since(t0) < waitBound; time.Sleep(200 * time.Microsecond) {
+					if cur := srv.VerifLookup("/site"); cur != nil && !cur.Same(first) {
+						break
+					}
+				}
+			}
+			close(releaseSide)
+			select {
+			case c.MidDial = <-midDone:
+			case <-time.After(waitBound + 2*time.Second):
+				c.MidDial = "stuck"
+			}
+		case "side-loss-endpoint":
+			ep.VerifSever()
+		case "side-loss-server":
+			first.Sever()
 		case "sever-endpoint":
 			ep.VerifSever()
 		case "sever-server":
@@ -771,7 +1122,7 @@ func runE2E(c *Case) {
 				go serveEcho(ep2)
 			}
 		}
-		if c.Hold && c.Fault != "kick-blackholed" && c.Fault != "proto-error" {
+		if c.Hold && c.Fault != "kick-blackholed" && c.Fault != "proto-error" && !side {
 			select {
 			case <-atServed:
 				// hold the server's connection thread before its deferred
@@ -805,6 +1156,11 @@ func runE2E(c *Case) {
 
 	// observations
 	end := time.Now().Add(waitBound)
+	if side {
+		// side connections are websockets of their own: they are not
+		// multiplexed over the control connection and may live on
+		end = time.Now().Add(100 * time.Millisecond)
+	}
 	for j := range fronts {
 		select {
 		case <-closedCh[j]:
@@ -894,12 +1250,20 @@ func strandKinds(c *Case) string {
 	if c.Crash != "" {
 		return ""
 	}
+	if c.Stream == "ep" {
+		for _, x := range c.EP {
+			add(!x.Returned, x.Kind)
+		}
+		add(len(c.Leak) > 0, "leak")
+		return strings.Join(ks, ",")
+	}
 	for _, f := range c.FrontClosed {
-		if !f {
+		if !f && !strings.HasPrefix(c.Fault, "side-") {
 			add(true, "front")
 			break
 		}
 	}
+	add(c.MidDial == "stuck", "middial")
 	add(!c.Unregistered, "registered")
 	add(!c.FrontReturned, "servefront")
 	add(!c.BackReturned, "serveback")
@@ -926,6 +1290,7 @@ func main() {
 	seed := flag.Uint64("seed", 1, "seed")
 	n := flag.Int("n", 120, "transport-level scenarios")
 	ne := flag.Int("e2e", 16, "end-to-end scenarios")
+	nep := flag.Int("ep", 8, "endpoint-side scenarios")
 	bound := flag.Int("bound", 10, "observation bound in seconds")
 	script := flag.String("script", "", "JSON file with a list of cases to run instead")
 	child := flag.Bool("child", false, "child mode")
@@ -936,9 +1301,9 @@ func main() {
 	var scripted []Case
 	if *script != "" {
 		scripted = loadScript(*script)
-		*n, *ne = len(scripted), 0
+		*n, *ne, *nep = len(scripted), 0, 0
 	}
-	total := *n + *ne
+	total := *n + *ne + *nep
 	gen := func(i int) Case {
 		if scripted != nil {
 			x := scripted[i]
@@ -946,6 +1311,10 @@ func main() {
 		}
 		if i < *n {
 			return genTL(*seed, i)
+		}
+		if i >= *n+*ne {
+			j := i - *n - *ne
+			return Case{I: i, Stream: "ep", Fault: epScenarios[j%len(epScenarios)], Conns: 1 + (j/len(epScenarios)+j)%4}
 		}
 		return genE2E(*seed, i, i-*n)
 	}
@@ -971,9 +1340,12 @@ func main() {
 				out.Emit(&c)
 				continue
 			}
-			if c.Stream == "tl" {
+			switch c.Stream {
+			case "tl":
 				runTL(&c, tap)
-			} else {
+			case "ep":
+				runEP(&c)
+			default:
 				runE2E(&c)
 			}
 			if k := strandKinds(&c); k != "" {
@@ -987,7 +1359,7 @@ func main() {
 		return
 	}
 	args := []string{"-seed", strconv.FormatUint(*seed, 10), "-n", strconv.Itoa(*n), "-e2e", strconv.Itoa(*ne),
-		"-bound", strconv.Itoa(*bound)}
+		"-bound", strconv.Itoa(*bound), "-ep", strconv.Itoa(*nep)}
 	if *script != "" {
 		args = append(args, "-script", *script)
 	}
